@@ -2,6 +2,7 @@ import GwModel.Trans.Local
 import GwModel.Select
 import GwModel.ExecFacts
 import GwModel.Gen.Facts
+import GwModel.FindPtsInsert
 /-! # C13 — Every fetch is issued exactly once and no hop is needless -/
 namespace Props.C13
 open Facts
@@ -35,6 +36,20 @@ theorem every_task_merged_exactly_once (ts : ExecM.Tasks) (hwf : ExecM.WF ts) {s
     s.order.Nodup ∧ ∀ t, t ∈ s.order ↔ t < ts.length :=
   have hs := ExecM.cfg_safe_of_facts facts_safe.2.2.2.2.1
   ⟨(ExecM.order_respectful hs hwf hr).1, ExecM.order_complete hs hwf hr hret⟩
+
+/-- exactly once, insertion-point level: whatever the reply looks like (well-formed or not), the places a
+    dependent step is started for are pairwise different — no object is fetched, and no place is written, twice
+    by one step.  (`Fp.findPts` is tied to executorFindInsertionPoints by the L2.findpoints correspondence.) -/
+theorem follow_ups_at_distinct_places (infos : List Fp.PInfo) (chunk : Ins.KVs) (pre : List Fp.RPt)
+    (paths : List (List Fp.RPt)) (h : Fp.findPts infos chunk pre = .ok paths) : (paths.map Fp.sig).Nodup :=
+  Fp.findPts_nodup infos chunk pre paths h
+
+/-- non-vacuity: two users, the second without id (a fragment did not apply to it), three photos under the first -/
+example :
+    (Fp.findPts [⟨1, true, true, true⟩, ⟨2, true, true, false⟩]
+      [(1, .arr [.obj [(0, .leaf "\"u1\""), (2, .arr [.obj [(0, .leaf "\"p1\"")], .null, .obj [(0, .leaf "\"p2\"")]])],
+                 .obj [(2, .arr [])]])] []).toOption.map (fun ps => ps.map Fp.sig) =
+      some [[(1, some 0), (2, some 0)], [(1, some 0), (2, some 2)]] := by decide
 
 /-- non-vacuity: a routing that keeps everything local, on the smoke-test query -/
 example : (Tr.splitSels { choose := fun _ _ L => L, ftype := fun _ _ => 0 } 0 0 Tr.qT).2 = [] := by decide
